@@ -1,3 +1,5 @@
+import Pcore.Model.UnicodeCase
+import Pcore.Generated.UnicodeCase
 /-!
 # Sequential model of pcore's loaders (property C12; the atomic steps of C13 reuse these definitions)
 
@@ -34,7 +36,11 @@ Quirks reproduced: a miss through `load` leaves a placeholder in the addressed l
 the map slot to the NEW entry (it does not write into the old one); a redefinition error is `…_REDEFINE_TYPE` only when
 both values are types; `load` compares the authority exactly whereas the map key folds its case; `Discover` answers
 names re-made from the lower-cased map keys.
-Lower-casing is modelled for ASCII letters only (Go: `strings.ToLower`, Unicode aware); the names of the universe are ASCII.
+Lower-casing is Go's: `strings.ToLower` = `unicode.ToLower` rune by rune (`Model/UnicodeCase.lean` over the table
+`Pcore.Generated.caseRanges`, regenerated from `$GOROOT/src/unicode/tables.go` on every check run), for valid UTF-8 — a name
+that is not valid UTF-8 is outside the model (`bad-op` on both sides).  Note that the BYTE length of a name may change under
+it (`K` U+212A → `k`, `Ⱥ` U+023A → `ⱥ` U+2C65): see `Model/LoaderKey.lean` for the places where typedname.go computes with
+byte offsets.
 -/
 namespace Pcore.LoaderSeq
 
@@ -65,10 +71,10 @@ structure Name where
 
 def runtimeAuthority : String := "http://puppet.com/2016.1/runtime"
 
-def lowerChar (c : Char) : Char :=
-  if 'A' ≤ c ∧ c ≤ 'Z' then Char.ofNat (c.toNat + 32) else c
+/-- `unicode.ToLower` -/
+def lowerChar (c : Char) : Char := Pcore.UnicodeCase.toLower Pcore.Generated.caseRanges c
 
-/-- `strings.ToLower` (ASCII) -/
+/-- `strings.ToLower` (of valid UTF-8) -/
 def lower (s : String) : String := String.ofList (s.toList.map lowerChar)
 
 def stripColonsL : List Char → List Char
